@@ -169,6 +169,16 @@ fn gen_steps(rng: &mut Rng, len: usize, style: u64, for_write: bool) -> Vec<Step
                 }
             }
         }
+        20 => {
+            // one byte per call with interruptions sprinkled over the first 14 calls, then unbounded
+            let at = rng.below(12) as usize;
+            for i in 0..14 {
+                if i == at || rng.chance(1, 6) {
+                    steps.push(Step::Intr);
+                }
+                steps.push(Step::Cap(0));
+            }
+        }
         18 => {
             // interruptions first, then whole
             for _ in 0..rng.range(1, 4) {
@@ -299,7 +309,7 @@ pub fn run_read(ctx: &mut Ctx) {
 
         // schedules
         let mut scheds: Vec<(Vec<Step>, Option<(usize, ErrorKind)>)> = Vec::new();
-        for style in 0..=19u64 {
+        for style in 0..=20u64 {
             scheds.push((gen_steps(&mut rng, len, style, false), None));
         }
         // failures
@@ -369,12 +379,13 @@ pub fn run_write(ctx: &mut Ctx) {
     let mut rng = ctx.rng.fork();
     let ndb = if ctx.thorough { 20 } else { 3 };
     for di in 0..ndb + 1 {
-        // the last database has a payload of exactly 1 MiB (a block-size boundary of the HMAC block stream)
+        // the last database has a payload of exactly 5 MiB (a multiple of the 1 MiB block size of the HMAC block stream, and
+        // more than any piece size a writer might hand to the sink at once)
         let big = di == ndb;
         let key = DatabaseKey::new().with_password("pw");
         let db = if big {
             let comp = crate::keyop::ref_composite(&Some("pw".to_string()), &None).unwrap();
-            crate::saveop::big_db(&mut rng, 1 << 20, &key, &comp)
+            crate::saveop::big_db(&mut rng, 5 << 20, &key, &comp)
         } else {
             small_db(&mut rng, CompressionConfig::None)
         };
